@@ -60,6 +60,7 @@ type GenSpec struct {
 	Iterators  bool
 	StoreSnaps bool
 	BigBatches bool
+	BulkPct    int // probability (%) of a bulk batch at the top level; default 10
 	KeepFiles  bool
 	CloseTail  bool // close collection/store with handles open, re-read, close handles in any order
 	KeyPoolMax int
@@ -260,8 +261,12 @@ func (g *genState) genBulk(t *rapid.T, cur *Node) []KV {
 
 func (g *genState) genBatch(t *rapid.T, cur *Node, depth int, path string) *Batch {
 	b := &Batch{}
-	if depth == 0 && g.spec.BigBatches && chance(t, "bulk", 10) {
-		if len(cur.KV) >= 20 && chance(t, "deleteall", 40) {
+	bulkPct := 10
+	if g.spec.BulkPct > 0 {
+		bulkPct = g.spec.BulkPct
+	}
+	if depth == 0 && g.spec.BigBatches && chance(t, "bulk", bulkPct) {
+		if len(cur.KV) >= 20 && chance(t, "deleteall", 50) {
 			// delete every live key: a later full compaction leaves no entry
 			for _, k := range cur.Keys() {
 				b.Ops = append(b.Ops, KV{Op: OpDel, K: []byte(k)})
@@ -979,7 +984,24 @@ func genConc(t *rapid.T, cs *ConcSpec) *Program {
 		pfx := writerPrefix(w)
 		nk := rapid.IntRange(1, 5).Draw(t, "nkeys")
 		var bs []*Batch
+		childOnly := cs.Children && chance(t, "childonlywriter", 25)
 		for i := 1; i <= nb; i++ {
+			if childOnly {
+				// this writer never touches the top level: marker and keys live
+				// in child collection A (child-only batches)
+				cb := &Batch{Ops: []KV{{Op: OpSet, K: markerKey(w), V: []byte(fmt.Sprint(i))}}}
+				for k := 0; k < nk; k++ {
+					key := []byte(fmt.Sprintf("%sk%d", pfx, k))
+					switch pick(t, "wop", 55, 25, 20) {
+					case 0:
+						cb.Ops = append(cb.Ops, KV{Op: OpSet, K: key, V: []byte(fmt.Sprintf("%d.%d", i, k))})
+					case 1:
+						cb.Ops = append(cb.Ops, KV{Op: OpDel, K: key})
+					}
+				}
+				bs = append(bs, &Batch{Children: []ChildBatch{{Name: "A", B: cb}}})
+				continue
+			}
 			b := &Batch{Ops: []KV{{Op: OpSet, K: markerKey(w), V: []byte(fmt.Sprint(i))}}}
 			for k := 0; k < nk; k++ {
 				key := []byte(fmt.Sprintf("%sk%d", pfx, k))
